@@ -556,7 +556,7 @@ def concurrent_run(cfg, jobs):
     # a transfer that is still unfinished after `budget` link turns (PDU exchanges; idle turns are SYMM) has
     # stalled: this is decided in link turns, not in seconds, so machine load cannot cause it
     nfr = sum(len(op[1]) + sum(len(v) for v in j.get('rsp', {}).values()) for j in jobs for op in j['ops']) // 100
-    budget = 8000 + 60 * nfr
+    budget = 4000 + 25 * nfr
     start = len(link.pipe.frames)
     stalled = False
     while any(r is None for r in results):
@@ -687,7 +687,7 @@ def history_fullstack_run(segments, cfg):
         return info['results']
     nfr = sum(len(op[1]) + len(rsp) for seg in segments for op, rsp in ([(seg[1], seg[2])] if seg[0] == 'oneshot' else seg[2])) // 100
     try:
-        results = llcpair.with_limit(client, link.pipe, 8000 + 60 * nfr)
+        results = llcpair.with_limit(client, link.pipe, 4000 + 25 * nfr)
     finally:
         closed = link.close()
     if link.pipe.stuck or not closed:
@@ -752,7 +752,7 @@ def fullstack_run(kind, ops, cfg, max_acc, answers):
     nfr = (sum(len(o[1]) for o in ops) + sum(len(a[1]) for a in answers if len(a) > 1 and isinstance(a[1], bytes))) // 100
     try:
         try:
-            results = llcpair.with_limit(client, link.pipe, 8000 + 60 * nfr)
+            results = llcpair.with_limit(client, link.pipe, 4000 + 25 * nfr)
         except (llcpair.Inconclusive, llcpair.Stalled):
             # DataLinkConnection.close() can wait for a DM that the peer's close() has discarded (a race
             # in nfc.llcp.tco, property C09/C05 territory): the C06 observations are complete by then
@@ -1226,6 +1226,7 @@ def main():
                 return
             except llcpair.Stalled as e:
                 obs = {'results': ['!stalled: ' + str(e)], 'log': [], 'send_miu': None, 'recv_miu': None, 'frames': 0}
+                break          # decided in link turns, independent of timing: no second attempt
             except Exception as e:  # noqa
                 obs = {'results': ['!' + type(e).__name__], 'log': [], 'send_miu': None, 'recv_miu': None, 'frames': 0}
             if obs['log'] == expect['log'] and obs['results'] == expect['results']:
@@ -1298,7 +1299,7 @@ def main():
                 continue
             except llcpair.Stalled as e:
                 obs = {'results': ['!stalled: ' + str(e)], 'logs': [[], []]}
-                continue
+                break
             if obs['logs'] == elogs and obs['results'] == eres:
                 break
         if obs is None:
@@ -1404,8 +1405,8 @@ def main():
                 ck.count('fullstack-inconclusive')
                 obs = None
                 continue
-            if obs['logs'] == elogs and obs['results'] == eres:
-                break
+            if (obs['logs'] == elogs and obs['results'] == eres) or obs['stalled']:
+                break          # a stall is decided in link turns: it does not depend on timing, no second attempt
         if obs is None:
             return
         ck.count('concurrent-' + tag)
